@@ -1,6 +1,6 @@
 (* C17 — property theorems only: each restates the full statement and is closed by the lemma proved in Proofs/. *)
 From Coq Require Import ZArith List Bool.
-From NPS Require Import ListAux PySlice NumpySem Scatter BuildIdx XorBroadcast View Index Assign Reduce Scan RaOps Heap Hash HashRun BitArr RLE RLEOps RLE2d DataClass RowsSpec AssignSpec MapSpec Denote RLEMisc RL2Proof RL2Col RL2Ravel RL2Elem RL2Argmax.
+From NPS Require Import ListAux PySlice NumpySem Scatter BuildIdx XorBroadcast View Index Assign Reduce Scan RaOps Heap Hash HashRun BitArr RLE RLEOps RLE2d DataClass RowsSpec AssignSpec MapSpec Denote RLEMisc RL2Proof RL2Col RL2Ravel RL2Elem RL2Argmax MatrixDecode.
 Import ListNotations.
 Open Scope Z_scope.
 
@@ -9,6 +9,12 @@ Theorem C17_from_ragged_decode :
        Forall (fun r : list Z => r <> []) rows -> rl2_decode (from_ragged rows) = rows.
 Proof. exact from_ragged_decode. Qed.
 Print Assumptions C17_from_ragged_decode.
+
+Theorem C17_from_matrix_decode :
+  forall (rows : list (list Z)) (n : Z),
+       1 <= n -> Forall (fun r : list Z => zlen r = n) rows -> rl2_decode (from_matrix rows) = rows.
+Proof. exact from_matrix_decode. Qed.
+Print Assumptions C17_from_matrix_decode.
 
 Theorem C17_rl2_select_correct :
   forall (x : rl2) (s : rowsel),
